@@ -1,18 +1,28 @@
+_T = dict(timeout=240, timeout_thorough=1800)
+
 SPEC = dict(
     level="exploration",
-    technique="tmp",
-    level_text="tmp",
-    level_note="tmp",
+    technique="runtime monitor: reference model of the 40x250ms outcome window run side by side with the real breaker on the virtual clock (lib/timex hook), compared with googleBreaker.history() before and after every call; martingale bound on rejection frequency vs. the model's drop ratio; -race stress with accounting checked at quiescence; black-box benign/failing outcome tables through the real HTTP, gRPC, SQL and Redis integrations",
+    level_text="Quick: 300 seeded histories (200-2000 steps, ~175k calls) over Do/DoWithAcceptable/DoWithFallback/DoWithFallbackAcceptable/Allow(+deferred Accept/Reject), direct and via the named registry, outcomes ok/acceptable err/unacceptable err/panic, clock advances around every bucket and window boundary before and inside calls; each call is checked for: admitted whenever the model's trailing window has total-5 <= 1.5*accepts; a call whose req did not run returns/feeds ErrServiceUnavailable exactly once and records nothing; an admitted call records exactly one outcome of the right polarity (history() == model after every step); panic re-raised unchanged. 12 trip/recover scripts (>=500 failures => >=1 rejection in the next 200 calls; after >=10 s no rejection). -race: 120 phases x 32 goroutines x 30 calls on 3 named breakers with a concurrent clock advancer, accounting at quiescence, Get(name) identity. Integration tables: HTTP statuses 100-599 through BreakerHandler, all 17 gRPC codes through codes.Acceptable and the client/unary/stream interceptors, SQL (Exec/QueryRow/Transact x ErrNoRows/ErrTxDone/Canceled/custom accept/driver errors), Redis (nil/redis.Nil/Canceled/ERR replies/expired context): every benign outcome alone x150 and 10000 mixed => 0 rejections, every failing outcome alone x400 => at least one rejection. Held = no deviation on the executions observed, not a proof.",
+    level_note="Trusts: Go runtime and race detector, the lib/timex virtual-clock hook, the ~40-line bucket model (buckets aligned to the breaker's birth, 40 visible including the current one), the transparent spy breakers used in sqlx/redis (delegate to the real breaker). The random decision of an individual rejectable call is never asserted; the frequency clause uses the anchored drop-ratio formula max(0,(total-5-1.5*accepts)/(total+1)) with a martingale threshold 8*sigma+25 (false-alarm probability < 1e-12 per band). Integration tables outside lib/breaker are black box (rejected = protected function did not run): a benign outcome that was mis-recorded as a failure is seen because 150 of them in a row would trip the breaker with probability > 1-1e-100.",
     design_ref="DESIGN.md §3 C01",
-    assumptions=[],
+    assumptions=[
+        "the trailing 10 s window is bucket-granular: 40 buckets of 250 ms aligned to the breaker's creation time, the current partial bucket included (as DESIGN §3 C01 states)",
+        "virtual time is monotone; the clock is switched to virtual before a breaker is created",
+        "the reference drop ratio for the statistical clause is the anchored SRE formula with K=1.5 and protection 5; only its frequency over >= 1000-2000 rejectable calls is compared, with very wide margins",
+        "sequential histories: one call at a time per process in the model test (concurrent callers are covered by the -race run, where only schedule-independent clauses are asserted and phases are arranged so that no outcome can age out half-way through a phase)",
+        "a rejected call is recognised by req/handler/invoker not having run; the returned error of an admitted call is not compared with req's error (only 'not ErrServiceUnavailable')",
+        "NoBreakerFor, the contents of the error window / alert text, and gRPC codes above Unauthenticated are outside the statement and not asserted",
+        "non-status errors and raw context errors passed to codes.Acceptable are not asserted (the statement speaks about gRPC codes)",
+    ],
     runs=[
-        dict(pkg="./lib/breaker", run="^TestVerifC01(Model|TripRecover)$", timeout=240, timeout_thorough=1500),
-        dict(pkg="./lib/breaker", run="^TestVerifC01Race$", race=True, timeout=240, timeout_thorough=1500, count_thorough=5),
-        dict(pkg="./api/handler", run="^TestVerifC01", timeout=240, timeout_thorough=1500),
-        dict(pkg="./rpc/internal/codes", run="^TestVerifC01", timeout=240, timeout_thorough=1500),
-        dict(pkg="./rpc/internal/clientinterceptors", run="^TestVerifC01", timeout=240, timeout_thorough=1500),
-        dict(pkg="./rpc/internal/serverinterceptors", run="^TestVerifC01", timeout=240, timeout_thorough=1500),
-        dict(pkg="./lib/store/sqlx", run="^TestVerifC01", timeout=240, timeout_thorough=1500),
-        dict(pkg="./lib/store/redis", run="^TestVerifC01", timeout=240, timeout_thorough=1500),
+        dict(pkg="./lib/breaker", run="^TestVerifC01(Model|TripRecover)$", **_T),
+        dict(pkg="./lib/breaker", run="^TestVerifC01Race$", race=True, count_thorough=5, **_T),
+        dict(pkg="./api/handler", run="^TestVerifC01", **_T),
+        dict(pkg="./rpc/internal/codes", run="^TestVerifC01", **_T),
+        dict(pkg="./rpc/internal/clientinterceptors", run="^TestVerifC01", **_T),
+        dict(pkg="./rpc/internal/serverinterceptors", run="^TestVerifC01", **_T),
+        dict(pkg="./lib/store/sqlx", run="^TestVerifC01", **_T),
+        dict(pkg="./lib/store/redis", run="^TestVerifC01", **_T),
     ],
 )
